@@ -174,6 +174,19 @@ func KeyOf(u *url.URL) URIKey {
 
 // CompareURI classifies a pair of URLs.
 func CompareURI(a, b *url.URL) Class {
+	if (a.Opaque != "") != (b.Opaque != "") {
+		// an opaque request-target against a hierarchical one: no verdict
+		return Unknown
+	}
+	if a.Opaque != "" {
+		if strings.EqualFold(a.Scheme, b.Scheme) && a.Opaque == b.Opaque && a.RawQuery == b.RawQuery {
+			return Equivalent
+		}
+		if !strings.EqualFold(a.Scheme, b.Scheme) && a.Opaque == b.Opaque {
+			return Distinct
+		}
+		return Unknown
+	}
 	ka, kb := KeyOf(a), KeyOf(b)
 	if ka.Strict == kb.Strict {
 		if ka.RawNonASCII != kb.RawNonASCII {
